@@ -314,27 +314,43 @@ def _disambiguate_matching(rain_intervals, jump_intervals, result):
         and duration_differences[candidate_matches[k]] == (rain_intervals[k][1] - rain_intervals[k][0])
         - (jump_intervals[k][1] - jump_intervals[k][0] - 1))))
     # loop 0: the two adjacency tables
-    loop(0, types={"storms_dict": "dict[int,list[int]]", "jumps_dict": "dict[int,list[int]]"},
+    loop(0, types={"storms_dict": "dict[int,list[int]]", "jumps_dict": "dict[int,list[int]]", "g_p0": "list[int]", "g_q0": "list[int]"},
          inv=lambda it: forall_int(lambda s: implies(s in storms_dict, forall(0, len(storms_dict[s]), lambda p:
              listed(candidate_matches, s, storms_dict[s][p], it)
              and forall(0, len(storms_dict[s]), lambda p0: implies(p0 != p, storms_dict[s][p0] != storms_dict[s][p])))))
          and forall_int(lambda j: implies(j in jumps_dict, forall(0, len(jumps_dict[j]), lambda p:
              listed(candidate_matches, jumps_dict[j][p], j, it))))
+         # where each candidate pair sits in the two tables (ghost positions: lists only grow at the end)
+         and len(g_p0) == it and len(g_q0) == it
          and forall(0, it, lambda k: candidate_matches[k][0] in storms_dict and candidate_matches[k][1] in jumps_dict
-                    and exists(0, len(jumps_dict[candidate_matches[k][1]]), lambda p:
-                               jumps_dict[candidate_matches[k][1]][p] == candidate_matches[k][0])
-                    and exists(0, len(storms_dict[candidate_matches[k][0]]), lambda p:
-                               storms_dict[candidate_matches[k][0]][p] == candidate_matches[k][1])))
+                    and 0 <= g_p0[k] and g_p0[k] < len(storms_dict[candidate_matches[k][0]])
+                    and storms_dict[candidate_matches[k][0]][g_p0[k]] == candidate_matches[k][1]
+                    and 0 <= g_q0[k] and g_q0[k] < len(jumps_dict[candidate_matches[k][1]])
+                    and jumps_dict[candidate_matches[k][1]][g_q0[k]] == candidate_matches[k][0]))
+    ghost(before="for rain_start, jump_start in candidate_matches", let="g_p0", do=lambda: [])
+    ghost(before="for rain_start, jump_start in candidate_matches", let="g_q0", do=lambda: [])
+    ghost(before="storms_dict[rain_start].append(jump_start)", let="g_p0", do=lambda: g_p0 + [len(storms_dict[rain_start])])
+    ghost(before="jumps_dict[jump_start].append(rain_start)", let="g_q0", do=lambda: g_q0 + [len(jumps_dict[jump_start])])
     # loop 1: candidate lists = the adjacency lists, reordered
     ghost(before="for rain_start, jumps in storms_dict.items()", let="g_si", do=lambda: list(storms_dict.items()))
-    loop(1, types={"storm_candidates": "dict[int,list[int]]"},
+    # g_p1[k]: where candidate pair k's rise sits in its storm's sorted list (sort_position: the place an element of the
+    # unsorted list takes in the sorted one)
+    ghost(before="for rain_start, jumps in storms_dict.items()", let="g_p1", do=lambda: [-1 for k in range(len(candidate_matches))])
+    ghost(after="candidates = sorted(", let="g_p1", do=lambda: [
+        (sort_position(candidates, g_p0[k]) if candidate_matches[k][0] == rain_start else g_p1[k])
+        for k in range(len(candidate_matches))])
+    loop(1, types={"storm_candidates": "dict[int,list[int]]", "g_p1": "list[int]"},
          inv=lambda it: forall(0, it, lambda m: g_si[m][0] in storm_candidates)
          and forall_int(lambda s: implies(s in storm_candidates, forall(0, len(storm_candidates[s]), lambda p:
              listed(candidate_matches, s, storm_candidates[s][p], len(candidate_matches))
              and forall(0, len(storm_candidates[s]), lambda p0: implies(p0 != p, storm_candidates[s][p0] != storm_candidates[s][p]))
              # best candidate last: the duration gap does not increase along the list
              and forall(0, p, lambda p0: abs(duration_differences[(s, storm_candidates[s][p0])])
-                        >= abs(duration_differences[(s, storm_candidates[s][p])]))))))
+                        >= abs(duration_differences[(s, storm_candidates[s][p])])))))
+         and len(g_p1) == len(candidate_matches)
+         and forall(0, len(candidate_matches), lambda k: implies(candidate_matches[k][0] in storm_candidates,
+             0 <= g_p1[k] and g_p1[k] < len(storm_candidates[candidate_matches[k][0]])
+             and storm_candidates[candidate_matches[k][0]][g_p1[k]] == candidate_matches[k][1])))
     # loop 2: every rise ranks the storms listed with it
     ghost(before="for jump_start, rains in jumps_dict.items()", let="g_ji", do=lambda: list(jumps_dict.items()))
     loop(2, types={"jump_preferences": "dict[int,dict[int,real]]"},
@@ -349,6 +365,21 @@ def _disambiguate_matching(rain_intervals, jump_intervals, result):
     ghost(before="jump_matches = find_stable_matching(", do=lambda: cut(forall(0, len(candidate_matches), lambda k:
         g_ji[key_position(jumps_dict, candidate_matches[k][1])][0] in jump_preferences
         and candidate_matches[k][1] in jump_preferences)))
+    # every storm of a candidate pair has been given its list, and the pair sits at g_p1[k] in it
+    ghost(before="jump_matches = find_stable_matching(", do=lambda: cut(forall(0, len(candidate_matches), lambda k:
+        0 <= key_position(storms_dict, candidate_matches[k][0]) and key_position(storms_dict, candidate_matches[k][0]) < len(g_si)
+        and g_si[key_position(storms_dict, candidate_matches[k][0])][0] == candidate_matches[k][0])))
+    ghost(before="jump_matches = find_stable_matching(", do=lambda: cut(forall(0, len(candidate_matches), lambda k:
+        g_si[key_position(storms_dict, candidate_matches[k][0])][0] in storm_candidates
+        and candidate_matches[k][0] in storm_candidates)))
+    ghost(before="jump_matches = find_stable_matching(", do=lambda: cut(forall(0, len(candidate_matches), lambda k:
+        0 <= g_p1[k] and g_p1[k] < len(storm_candidates[candidate_matches[k][0]])
+        and storm_candidates[candidate_matches[k][0]][g_p1[k]] == candidate_matches[k][1])))
+    # ... and its rise ranks its storm by minus the start offset
+    ghost(before="jump_matches = find_stable_matching(", do=lambda: cut(forall(0, len(candidate_matches), lambda k:
+        candidate_matches[k][0] in jump_preferences[candidate_matches[k][1]]
+        and jump_preferences[candidate_matches[k][1]][candidate_matches[k][0]]
+        == -abs(candidate_matches[k][1] - candidate_matches[k][0]))))
     ghost(before="jump_matches = find_stable_matching(", let="g_cand", do=lambda: storm_candidates)
     # stepping stones for the C02 clause (after the matching is known)
     ghost(after="jump_matches = find_stable_matching(", do=lambda: cut(forall_int(lambda j: implies(
@@ -361,15 +392,27 @@ def _disambiguate_matching(rain_intervals, jump_intervals, result):
                     and unique_rain_intervals[q][1] == storm_stops[g_mi[q][1]]
                     and unique_jump_intervals[q][1] == jump_stops[g_mi[q][0]]))
     # every matched rise is read back, with its storm; the gap of an output pair is the tabulated one
+    # (key_position names the place of a matched rise among the items of the matching)
     ghost(before="assert len(unique_rain_intervals) == len(unique_jump_intervals)", do=lambda: cut(forall_int(lambda j: implies(
-        j in jump_matches, exists(0, len(unique_jump_intervals), lambda q: unique_jump_intervals[q][0] == j
-                                  and unique_rain_intervals[q][0] == jump_matches[j])))))
+        j in jump_matches, 0 <= key_position(jump_matches, j) and key_position(jump_matches, j) < len(g_mi)
+        and g_mi[key_position(jump_matches, j)][0] == j and g_mi[key_position(jump_matches, j)][1] == jump_matches[j]))))
+    ghost(before="assert len(unique_rain_intervals) == len(unique_jump_intervals)", do=lambda: cut(forall_int(lambda j: implies(
+        j in jump_matches, key_position(jump_matches, j) < len(unique_jump_intervals)
+        and unique_jump_intervals[key_position(jump_matches, j)][0] == j
+        and unique_rain_intervals[key_position(jump_matches, j)][0] == jump_matches[j]))))
     ghost(before="assert len(unique_rain_intervals) == len(unique_jump_intervals)", do=lambda: cut(forall(
         0, len(unique_rain_intervals), lambda q: unique_jump_intervals[q][0] in jump_matches
         and jump_matches[unique_jump_intervals[q][0]] == unique_rain_intervals[q][0]
         and (unique_rain_intervals[q][0], unique_jump_intervals[q][0]) in duration_differences
         and duration_gap(unique_rain_intervals[q], unique_jump_intervals[q])
         == abs(duration_differences[(unique_rain_intervals[q][0], unique_jump_intervals[q][0])]))))
+    ghost(before="assert len(unique_rain_intervals) == len(unique_jump_intervals)", do=lambda: cut(forall(0, len(unique_rain_intervals), lambda q:
+        exists(0, len(rain_intervals), lambda k: unique_rain_intervals[q] == rain_intervals[k]
+               and unique_jump_intervals[q] == jump_intervals[k]))))
+    # C02: the clause follows from the facts above by lemma blocking_translation (proved on its own)
+    ghost(before="assert len(unique_rain_intervals) == len(unique_jump_intervals)", do=lambda: blocking_translation(
+        rain_intervals, jump_intervals, unique_rain_intervals, unique_jump_intervals, g_p1, g_cand, storm_candidates,
+        jump_matches, jump_preferences, duration_differences))
     ensures(len(result[0]) == len(result[1]))
     ensures(forall(0, len(result[0]), lambda q: exists(0, len(rain_intervals), lambda p:
             result[0][q] == rain_intervals[p] and result[1][q] == jump_intervals[p])))
@@ -377,16 +420,7 @@ def _disambiguate_matching(rain_intervals, jump_intervals, result):
             result[0][q][0] != result[0][r][0] and result[1][q][0] != result[1][r][0])))
     # C02: no overlapping storm and rise, not matched to each other, such that the storm is unmatched
     # or would obtain a strictly closer duration and the rise is unmatched or a strictly closer start.
-    # NOT discharged deductively at this call site.  Lemma blocking_translation (contracts/lemmas.py, proved on its
-    # own) derives exactly this clause from: candidate lists sorted by duration gap with the best last, preference =
-    # -|start offset|, every candidate pair on its storm's list, find_stable_matching's postconditions, and the output
-    # being the matching read back.  Of these premises the sortedness, the preference values, "matched pairs are listed
-    # pairs", the tabulated gaps and find_stable_matching's postconditions are proved here as invariants / cuts; wiring
-    # all of them to the lemma was done once (every premise discharged) but two of the premises -- every candidate pair
-    # is on its storm's list after sorting, and the read-back enumeration -- needed minutes of solver time and flipped
-    # to "undecided" under load, so the application is not part of the check and the clause is evaluated by the bounded
-    # native run on all small many-to-many relations instead
-    checked_natively(forall(0, len(rain_intervals), lambda p:
+    ensures(forall(0, len(rain_intervals), lambda p:
             exists(0, len(result[0]), lambda q: result[0][q] == rain_intervals[p] and result[1][q] == jump_intervals[p])
             or not (forall(0, len(result[0]), lambda q: implies(
                         result[0][q][0] == rain_intervals[p][0],
